@@ -10,7 +10,9 @@ CODES = {"OV_FALSE", "OV_EOF", "OV_HOLE", "OV_EREAD", "OV_EFAULT", "OV_EIMPL", "
 
 def gen_open_case(rng, i, k, kind, persist):
     links = V.gen_links(rng, rng.choice([1, 2, 3]), tiny=True)
-    ops = ["case %d" % i] + links + ["ref 0", "open 0 %d %d %d %d %d" % (rng.choice([1, 1, 1, 0]), rng.choice([4096, 513, 64]), k, kind, persist)]
+    sk = rng.choice([1, 1, 1, 0])
+    # the fault-free twin first: its link table is what a successful open has to find
+    ops = ["case %d" % i] + links + ["ref 0", "open 1 %d 4096" % sk, "open 0 %d %d %d %d %d" % (sk, rng.choice([4096, 513, 64]), k, kind, persist)]
     ops += ["nofault 0", "pcmseek 0 0", "read 0 4096", "read 0 4096", "clear 0"]
     return ops
 
@@ -37,7 +39,11 @@ def gen_case(rng, i, tier):
         # a fault burst: armed k callbacks from now, then 1-3 calls made under it
         ops.append("fault 0 %d %d %d" % (rng.choice([0, 0, 1, 2, 3, 5, 8, 13, 30]), rng.choice([1, 1, 2, 2, 3, 4, 4]), rng.randint(0, 1)))
         for _ in range(rng.randint(1, 3)):
-            ops.append(someop(0))
+            o = someop(0)
+            ops.append(o)
+            if o.startswith(("pcmseekpage ", "timeseekpage ")):
+                # where did a page seek that claims success under the fault land, and where does the same seek land without one
+                ops += ["ffq 0", "tell 0", o.replace(" 0 ", " 1 ", 1), "tell 1"]
         ops.append("nofault 0")
         # the callbacks work again: a seek to any valid position, then reads, on the handle and on its untouched twin
         kind = rng.choice(["pcmseek", "pcmseek", "pcmseekpage", "rawseek", "timeseek", "rawseekto", "rawseekto"])
@@ -78,15 +84,29 @@ def compare_recovery(rec0, rec1):
     return None
 
 
+TABLE = ("links", "end", "offs", "doffs", "serials", "pcml")
+
+
 def oracle(d):
     under_fault = False
     rec = {0: [], 1: []}
-    for op, a in d["ans"]:
-        if a is None or isinstance(a, list):
-            continue
+    ref_table = None
+    total = None
+    ans = [(op, a) for op, a in d["ans"] if not (a is None or isinstance(a, list))]
+    for j, (op, a) in enumerate(ans):
         t = op.split(" ")
         f = V.kv(a)
         if t[0] == "open":
+            if f["rc"] == "0" and f.get("pcml"):
+                total = sum(int(x) for x in f["pcml"].split(",")[1::2])
+            if len(t) < 7 and f["rc"] == "0":
+                ref_table = (t[2], {x: f.get(x) for x in TABLE})
+            # a read error (kind 1) or a short read (kind 3) that open survives must not change what open finds
+            if len(t) >= 7 and f["rc"] == "0" and t[5] in ("1", "3") and int(f.get("fired", "0")) > 0 and ref_table and ref_table[0] == t[2]:
+                got = {x: f.get(x) for x in TABLE}
+                if got != ref_table[1]:
+                    return "open-table: open succeeded although a %s fired during it, with a link table that differs from the fault-free one: %s" % (
+                        "read error" if t[5] == "1" else "one-byte read", a[:200])
             if f["rc"] != "0":
                 if f["rc"] not in CODES:
                     return "code: open returned %s" % f["rc"]
@@ -111,6 +131,16 @@ def oracle(d):
             return "code: %s returned %s" % (op, rc)
         if t[0] in SEEKS and rc is not None and not rc.startswith("OV_") and rc != "0":
             return "code: %s returned %s, neither 0 nor an error code" % (op, rc)
+        if t[0] == "ffq":
+            # ans[j-1] is the page seek, then: tell 0, the twin's seek, tell 1
+            if j >= 1 and j + 3 < len(ans) and f.get("kind") == "1" and int(f.get("fired", "0")) > 0:
+                p0, p1 = V.kv(ans[j - 1][1]), V.kv(ans[j + 2][1])
+                if p0.get("rc") == "0" and p1.get("rc") == "0":
+                    t0, t1 = ans[j + 1][1], ans[j + 3][1]
+                    if t0 != t1 and t0 != "tell %s" % total:        # (standing at the very end is the "end-of-file" outcome)
+                        return "seek-under-read-error: '%s' returned 0 although a read error fired during it and stands at '%s'; without the fault it lands at '%s'" % (
+                            ans[j - 1][0], t0, t1)
+            continue
         if under_fault:
             continue
         if t[1] in ("0", "1"):
